@@ -57,6 +57,8 @@ pub struct Stream {
     pub was_full: bool,
     /// a `send_slow` write on this stream has begun and not yet completed
     pub slow_in_progress: bool,
+    /// the previous write call on this stream was interrupted (EINTR): the caller repeats it
+    pub last_eintr: bool,
 }
 
 #[derive(Default)]
@@ -295,13 +297,24 @@ impl Backend for SimBackend {
         let mut st = n.st.lock().unwrap();
         let now = dsim::now();
         let step = dsim::step();
+        // a write call that starts a length-prefixed frame (the prefix announces exactly the rest of
+        // the buffer; the continuation of a short write starts with text bytes, which read as a
+        // length of many megabytes) is logged as one attempt to send that frame, whatever becomes of
+        // it; the repetition of an interrupted call is the same attempt
+        let repeat = st.streams.get_mut(&sock).map_or(false, |s| std::mem::take(&mut s.last_eintr));
+        if !repeat && buf.len() > 4 && u32::from_le_bytes([buf[0], buf[1], buf[2], buf[3]]) as usize == buf.len() - 4 {
+            st.attempts.push(Delivery { endpoint: ep.clone(), conn: sock, time: now, step, data: buf[4..].to_vec() });
+        }
         let s = st.streams.get_mut(&sock).ok_or_else(no_net)?;
         if s.peer_closed || s.reset {
             s.ended_by_fault = true;
             return Err(io::Error::new(if s.reset { io::ErrorKind::ConnectionReset } else { io::ErrorKind::BrokenPipe }, "peer closed"));
         }
         match f {
-            Some(("write_eintr", _)) => return Err(io::Error::new(io::ErrorKind::Interrupted, "simulated EINTR")),
+            Some(("write_eintr", _)) => {
+                s.last_eintr = true;
+                return Err(io::Error::new(io::ErrorKind::Interrupted, "simulated EINTR"));
+            }
             Some(("write_epipe", _)) => {
                 s.ended_by_fault = true;
                 s.peer_closed = true;
